@@ -767,6 +767,9 @@ class Interp:
         return PList(out)
 
     def e_SetComp(self, node, frame):
+        hook = self._comp_model(node, frame)
+        if hook is not None:
+            return hook
         out = []
         self._comp(node, frame, lambda fr: out.append(self.eval(node.elt, fr)))
         return PSet(out)
